@@ -250,143 +250,26 @@ theorem planHollerith_total : PlanTotal planHollerith := by
   · cases hs
   · cases hs; simp
 
-/-! ## Cray_Pointer_Decl: `pointee_str[-1]` on an empty pointee — IndexError escapes (`pointer (a,)`) -/
+/-! ## Cray_Pointer_Decl: REPAIRED in /repo (`if not pointee_str: return None` before `pointee_str[-1]`):
+    the plan raises nothing of its own any more -/
 
-/-- the pointee text of `( pointer , pointee )` as `Cray_Pointer_Decl.match` computes it (the part after the only
-    top-level comma, un-mapped and stripped); `none` when the match returns before looking at it -/
-def crayPointee (s : Str) : Option Str :=
-  if s.isEmpty then none else
-  let ss := strip s
-  if ss.isEmpty then none else
-  if !startsC '(' ss then none else
-  if !endsC ')' ss then none else
-  match tok (strip (inner ss)) with
-  | .ok r =>
-    (match splitC ',' r.text with
-      | [_, b] => some (strip (applyMap r.map b))
-      | _ => none)
-  | _ => none
+theorem planCrayPointerDecl_total : PlanTotal planCrayPointerDecl := by
+  apply planTotal_of_resTotal
+  intro s
+  unfold planCrayPointerDecl
+  repeat rt_step
 
-/-- **exact characterisation**: IndexError escapes iff the pointee text is empty -/
-theorem planCrayPointerDecl_indexError_iff (s : Str) :
-    planCrayPointerDecl s = .raises .indexError ↔ crayPointee s = some [] := by
-  unfold planCrayPointerDecl crayPointee
-  split
-  · simp
-  dsimp only
-  split
-  · simp
-  split
-  · simp
-  split
-  · simp
-  cases ht : tok (strip (inner (strip s))) with
-  | noMatch => simp
-  | raises e =>
-    obtain ⟨rfl, _⟩ := tok_raises ht
-    simp
-  | ok r =>
-    simp only [Res.bind_ok]
-    split
-    · rename_i a b hsp
-      rw [hsp]
-      dsimp only
-      by_cases hp : strip (applyMap r.map b) = []
-      · simp [hp]
-      · have hp' : (strip (applyMap r.map b)).isEmpty = false := by
-          cases hq : strip (applyMap r.map b) with
-          | nil => exact absurd hq hp
-          | cons _ _ => rfl
-        simp only [hp', Bool.false_eq_true, if_false]
-        constructor
-        · intro h; split at h <;> cases h
-        · intro h; exact absurd (Option.some.inj h) hp
-    · rename_i hn
-      split
-      · rename_i hsp; exact absurd hsp (hn _ _)
-      · simp
-
-theorem planCrayPointerDecl_raises (s : Str) (e : Exc) (h : planCrayPointerDecl s = .raises e) :
-    e = .keyError ∨ e = .indexError := by
-  unfold planCrayPointerDecl at h
-  split at h
-  · cases h
-  dsimp only at h
-  split at h
-  · cases h
-  split at h
-  · cases h
-  split at h
-  · cases h
-  rcases Res.bind_eq_raises h with h1 | ⟨r, _, h2⟩
-  · exact .inl (tok_raises h1).1
-  · split at h2
-    · try dsimp only at h2
-      split at h2
-      · cases h2; exact .inr rfl
-      · split at h2 <;> cases h2
-    · cases h2
-
-theorem planCrayPointerDecl_noRaise (s : Str) (slots : List Slot) (h : planCrayPointerDecl s = .ok slots) :
-    NoRaise slots := by
-  unfold planCrayPointerDecl at h
-  split at h
-  · cases h
-  dsimp only at h
-  split at h
-  · cases h
-  split at h
-  · cases h
-  split at h
-  · cases h
-  obtain ⟨r, _, h2⟩ := Res.bind_eq_ok h
-  split at h2
-  · try dsimp only at h2
-    split at h2
-    · cases h2
-    · split at h2 <;> (cases h2; simp)
-  · cases h2
-
-/- intended (FALSE for /repo): `PlanTotal planCrayPointerDecl` -/
-/-- totality under the decidable hypothesis that the pointee text is not empty -/
-theorem planCrayPointerDecl_partial (s : Str) (hp : crayPointee s ≠ some []) :
-    (∀ e, planCrayPointerDecl s = .raises e → e = .keyError) ∧
-    (∀ slots, planCrayPointerDecl s = .ok slots → ∀ e, Slot.raise e ∉ slots) := by
-  refine ⟨fun e h => ?_, fun slots h e => (planCrayPointerDecl_noRaise s slots h).not_mem e⟩
-  rcases planCrayPointerDecl_raises s e h with h1 | h1
-  · exact h1
-  · subst h1
-    exact absurd ((planCrayPointerDecl_indexError_iff s).1 h) hp
-
-/-- witnesses (confirmed on the real code: `pointer (a,)` makes IndexError escape from the parser) -/
-theorem planCrayPointerDecl_indexError_witness :
-    planCrayPointerDecl "(a,)".toList = .raises .indexError ∧
-    planCrayPointerDecl " ( a , ) ".toList = .raises .indexError ∧
-    crayPointee "(a,)".toList = some [] ∧
-    (planCrayPointerDecl "(a,)".toList).bind (runSlots echoOracle) = .raises .indexError := by decide +kernel
-
-/-- non-vacuity of the `_partial` hypothesis -/
-example : crayPointee "(a, b(10))".toList = some "b(10)".toList ∧ crayPointee "(a, b(10))".toList ≠ some [] ∧
-    planCrayPointerDecl "(a, b(10))".toList =
-      .ok [.child R.Cray_Pointer_Name "a".toList, .child R.Cray_Pointee_Decl "b(10)".toList] := by decide +kernel
+/-- REGRESSION witnesses: `pointer (a,)` used to let `IndexError` escape; now "no match", whatever the children do -/
+theorem planCrayPointerDecl_empty_pointee_regression :
+    planCrayPointerDecl "(a,)".toList = .noMatch ∧ planCrayPointerDecl " ( a , ) ".toList = .noMatch ∧
+    planCrayPointerDecl "(,)".toList = .noMatch ∧
+    (planCrayPointerDecl "(a,)".toList).bind (runSlots echoOracle) = .noMatch := by
+  decide +kernel
 
 theorem crayPointerDecl_match_total (o : Oracle Node) (s : Str) (e : Exc)
     (h : (planCrayPointerDecl s).bind (runSlots o) = .raises e) :
-    e = .keyError ∨ (∃ c t, o.call c t = .raises e) ∨ (e = .indexError ∧ crayPointee s = some []) := by
-  rcases Res.bind_eq_raises h with h1 | ⟨slots, h1, h2⟩
-  · rcases planCrayPointerDecl_raises s e h1 with h3 | h3
-    · exact .inl h3
-    · subst h3
-      exact .inr (.inr ⟨rfl, (planCrayPointerDecl_indexError_iff s).1 h1⟩)
-  · exact .inr (.inl (runSlots_noRaise_raises (planCrayPointerDecl_noRaise s slots h1) h2))
-
-theorem crayPointerDecl_match_total_partial (o : Oracle Node) (s : Str) (e : Exc) (hp : crayPointee s ≠ some [])
-    (h : (planCrayPointerDecl s).bind (runSlots o) = .raises e) :
-    e = .keyError ∨ ∃ c t, o.call c t = .raises e := by
-  rcases crayPointerDecl_match_total o s e h with h1 | h1 | ⟨_, h1⟩
-  · exact .inl h1
-  · exact .inr h1
-  · exact absurd h1 hp
+    e = .keyError ∨ ∃ c t, o.call c t = .raises e :=
+  plan_match_total _ planCrayPointerDecl_total o s e h
 
 /-! ## Data_Edit_Desc: `string[0]` on the empty string -/
 
@@ -438,118 +321,26 @@ theorem dataEditDesc_match_total (o : Oracle Node) (s : Str) (e : Exc)
     | cons c0 rest =>
       exact .inl (runSlots_noRaise_raises ((planDataEditDesc_cons_total c0 rest).2 slots h1) h2)
 
-/-! ## Data_Edit_Desc_C1002: `my_str[0]` after a lone `E` / `G` (`10 format(E)`) -/
+/-! ## Data_Edit_Desc_C1002: REPAIRED in /repo (`if not my_str: return None` before `my_str[0]`):
+    the plan raises nothing of its own any more -/
 
-/-- the statement is a single `E` / `G` (any case) surrounded by blanks -/
-def egAlone (s : Str) : Bool :=
-  match strip s with
-  | [c] => upperC c == 'E' || upperC c == 'G'
-  | _ => false
-
-theorem egAlone_iff (s : Str) : egAlone s = true ↔ ∃ c, strip s = [c] ∧ (upperC c = 'E' ∨ upperC c = 'G') := by
-  unfold egAlone
-  split
-  · rename_i c hc
-    simp [hc]
-  · rename_i hn
-    constructor
-    · intro h; cases h
-    · rintro ⟨c, hc, _⟩; exact absurd hc (hn c)
-
-theorem tail_nil_of_strip {s : Str} {c0 : Char} {rest : Str} (hs : strip s = c0 :: rest) (hl : lstrip rest = []) :
-    rest = [] := by
-  have hne : strip s ≠ [] := by rw [hs]; simp
-  obtain ⟨d, hd, hsp⟩ := lastNS_strip hne
-  rw [hs] at hd
-  obtain ⟨w, hw, hall⟩ := Combi.lstrip_decomp rest
-  rw [hl, List.append_nil] at hw
-  cases rest with
-  | nil => rfl
-  | cons x xs =>
-    rw [List.getLast?_cons_cons] at hd
-    have hm : d ∈ w := hw ▸ List.mem_of_getLast? hd
-    rw [hall d hm] at hsp
-    cases hsp
-
-private theorem strip_nil : strip ([] : Str) = [] := by decide
-
-theorem planDataEditDescC1002_of_alone {s : Str} (h : egAlone s = true) :
-    planDataEditDescC1002 s = .raises .indexError := by
-  obtain ⟨c, hs, hc⟩ := (egAlone_iff s).1 h
-  have hne : s.isEmpty = false := by
-    cases s with
-    | nil => rw [strip_nil] at hs; cases hs
-    | cons _ _ => rfl
+theorem planDataEditDescC1002_total : PlanTotal planDataEditDescC1002 := by
+  apply planTotal_of_resTotal
+  intro s
   unfold planDataEditDescC1002
-  rw [hne, hs]
-  rcases hc with hc | hc <;> (simp only [hc]; decide)
+  repeat rt_step
 
-/-- **exact characterisation**: the only exception of the plan is the IndexError after a lone `E` / `G` -/
-theorem planDataEditDescC1002_raises_iff (s : Str) (e : Exc) :
-    planDataEditDescC1002 s = .raises e ↔ e = .indexError ∧ egAlone s = true := by
-  constructor
-  · intro h
-    unfold planDataEditDescC1002 at h
-    split at h
-    · cases h
-    split at h
-    · cases h
-    rename_i c0 rest hs
-    dsimp only at h
-    split at h
-    · split at h <;> cases h
-    split at h
-    · rename_i hfd heg
-      split at h
-      · rename_i hmy
-        cases h
-        refine ⟨rfl, ?_⟩
-        have h1 : lstrip rest = [] := by
-          unfold upper at hmy
-          exact List.map_eq_nil_iff.1 hmy
-        have h2 := tail_nil_of_strip hs h1
-        subst h2
-        rw [egAlone_iff]
-        exact ⟨c0, hs, by simpa using heg⟩
-      · try dsimp only at h
-        repeat' split at h
-        all_goals cases h
-    · cases h
-  · rintro ⟨rfl, h⟩
-    exact planDataEditDescC1002_of_alone h
-
-theorem planDataEditDescC1002_noRaise (s : Str) (slots : List Slot) (h : planDataEditDescC1002 s = .ok slots) :
-    NoRaise slots := by
-  unfold planDataEditDescC1002 at h
-  split at h
-  · cases h
-  split at h
-  · cases h
-  dsimp only at h
-  repeat' split at h
-  all_goals (cases h <;> simp)
-
-/- intended (FALSE for /repo): `PlanTotal planDataEditDescC1002` -/
-theorem planDataEditDescC1002_partial (s : Str) (hs : egAlone s = false) :
-    (∀ e, planDataEditDescC1002 s ≠ .raises e) ∧
-    (∀ slots, planDataEditDescC1002 s = .ok slots → ∀ e, Slot.raise e ∉ slots) := by
-  refine ⟨fun e h => ?_, fun slots h e => (planDataEditDescC1002_noRaise s slots h).not_mem e⟩
-  have := ((planDataEditDescC1002_raises_iff s e).1 h).2
-  rw [hs] at this; cases this
-
-/-- witnesses (confirmed on the real code: `10 format(E)` makes IndexError escape from the parser) -/
-theorem planDataEditDescC1002_indexError_witness :
-    planDataEditDescC1002 "E".toList = .raises .indexError ∧
-    planDataEditDescC1002 "g ".toList = .raises .indexError ∧
-    egAlone "E".toList = true ∧ egAlone "g ".toList = true ∧ egAlone "E1.2".toList = false ∧
-    (planDataEditDescC1002 "E".toList).bind (runSlots echoOracle) = .raises .indexError := by decide +kernel
+/-- REGRESSION witnesses: `10 format(E)` / `format(g)` used to let `IndexError` escape; now "no match" -/
+theorem planDataEditDescC1002_bare_letter_regression :
+    planDataEditDescC1002 "E".toList = .noMatch ∧ planDataEditDescC1002 "g ".toList = .noMatch ∧
+    planDataEditDescC1002 " e".toList = .noMatch ∧
+    (planDataEditDescC1002 "E".toList).bind (runSlots echoOracle) = .noMatch := by
+  decide +kernel
 
 theorem dataEditDescC1002_match_total (o : Oracle Node) (s : Str) (e : Exc)
     (h : (planDataEditDescC1002 s).bind (runSlots o) = .raises e) :
-    (∃ c t, o.call c t = .raises e) ∨ (e = .indexError ∧ egAlone s = true) := by
-  rcases Res.bind_eq_raises h with h1 | ⟨slots, h1, h2⟩
-  · exact .inr ((planDataEditDescC1002_raises_iff s e).1 h1)
-  · exact .inl (runSlots_noRaise_raises (planDataEditDescC1002_noRaise s slots h1) h2)
+    e = .keyError ∨ ∃ c t, o.call c t = .raises e :=
+  plan_match_total _ planDataEditDescC1002_total o s e h
 
 /-! ## the child-dependent matchers -/
 
@@ -631,7 +422,9 @@ theorem matchUse_total (o : Oracle Node) (s : Str) (e : Exc)
         split at h1
         · cases h1
         · exact ⟨_, _, Res.map_eq_raises h1⟩
-      · cases h1
+      · split at h1
+        · cases h1
+        · cases h1
     · try dsimp only at h2
       split at h2
       · cases h2
@@ -719,7 +512,7 @@ theorem matchStopCode_total (o : Oracle Node) (s : Str) (e : Exc)
 /-- what can escape from a match of class `c` -/
 def Escapes (o : Oracle Node) (c : ClassId) (e : Exc) : Prop :=
   e = .keyError ∨ (∃ c' t, o.call c' t = .raises e) ∨
-    (e = .indexError ∧ (c = R.Cray_Pointer_Decl ∨ c = C.Data_Edit_Desc ∨ c = R.Data_Edit_Desc_C1002))
+    (e = .indexError ∧ c = C.Data_Edit_Desc)
 
 theorem escapes_of_two {o : Oracle Node} {c : ClassId} {e : Exc}
     (h : e = .keyError ∨ ∃ c' t, o.call c' t = .raises e) : Escapes o c e :=
@@ -790,11 +583,7 @@ theorem planOf_match_total (o : Oracle Node) (c : ClassId) (plan : Str → Res (
   · rw [if_pos h1] at h; cases h; exact escapes_of_two (plan_match_total _ planAssumedSize_total o s e hm)
   rw [if_neg h1] at h; clear h1
   by_cases h1 : (c == R.Cray_Pointer_Decl) = true
-  · rw [if_pos h1] at h; cases h
-    rcases crayPointerDecl_match_total o s e hm with h2 | h2 | ⟨h2, _⟩
-    · exact .inl h2
-    · exact .inr (.inl h2)
-    · exact .inr (.inr ⟨h2, .inl (by simpa using h1)⟩)
+  · rw [if_pos h1] at h; cases h; exact escapes_of_two (plan_match_total _ planCrayPointerDecl_total o s e hm)
   rw [if_neg h1] at h; clear h1
   by_cases h1 : (c == R.Cray_Pointer_Stmt) = true
   · rw [if_pos h1] at h; cases h; exact escapes_of_two (plan_match_total _ planCrayPointerStmt_total o s e hm)
@@ -812,13 +601,10 @@ theorem planOf_match_total (o : Oracle Node) (c : ClassId) (plan : Str → Res (
   · rw [if_pos h1] at h; cases h
     rcases dataEditDesc_match_total o s e hm with h2 | ⟨h2, _⟩
     · exact .inr (.inl h2)
-    · exact .inr (.inr ⟨h2, .inr (.inl (by simpa using h1))⟩)
+    · exact .inr (.inr ⟨h2, by simpa using h1⟩)
   rw [if_neg h1] at h; clear h1
   by_cases h1 : (c == R.Data_Edit_Desc_C1002) = true
-  · rw [if_pos h1] at h; cases h
-    rcases dataEditDescC1002_match_total o s e hm with h2 | ⟨h2, _⟩
-    · exact .inr (.inl h2)
-    · exact .inr (.inr ⟨h2, .inr (.inr (by simpa using h1))⟩)
+  · rw [if_pos h1] at h; cases h; exact escapes_of_two (plan_match_total _ planDataEditDescC1002_total o s e hm)
   rw [if_neg h1] at h; clear h1
   by_cases h1 : (c == C.Hollerith_Item) = true
   · rw [if_pos h1] at h; cases h; exact escapes_of_two (plan_match_total _ planHollerith_total o s e hm)
@@ -829,12 +615,12 @@ theorem planOf_match_total (o : Oracle Node) (c : ClassId) (plan : Str → Res (
   cases h
 
 /-- **match_total** for every class modelled in `Rest.lean`: an exception escaping from `match` is the `KeyError` of
-    string_replace_map's un-nesting loop, or was raised inside a child call, or is the `IndexError` of one of the
-    three defective classes (`Cray_Pointer_Decl`, `Data_Edit_Desc`, `Data_Edit_Desc_C1002`) -/
+    string_replace_map's un-nesting loop, or was raised inside a child call, or is the `IndexError` of
+    `Data_Edit_Desc.match("")` (`string[0]`; latent: no rule hands the empty string to Data_Edit_Desc).
+    Since the repairs of `Cray_Pointer_Decl.match` and `Data_Edit_Desc_C1002.match` these two classes are like the others. -/
 theorem matchOf_total (k : Kinds Node) (o : Oracle Node) (c : ClassId) (s : Str) (e : Exc)
     (h : matchOf k o c s = some (.raises e)) :
-    e = .keyError ∨ (∃ c' t, o.call c' t = .raises e) ∨
-      (e = .indexError ∧ (c = R.Cray_Pointer_Decl ∨ c = C.Data_Edit_Desc ∨ c = R.Data_Edit_Desc_C1002)) := by
+    e = .keyError ∨ (∃ c' t, o.call c' t = .raises e) ∨ (e = .indexError ∧ c = C.Data_Edit_Desc) := by
   show Escapes o c e
   unfold matchOf at h
   split at h
@@ -863,25 +649,34 @@ theorem matchOf_total (k : Kinds Node) (o : Oracle Node) (c : ClassId) (s : Str)
     · exact escapes_of_two (.inr (matchStopCode_total o s e (Option.some.inj h)))
     · cases h
 
-/-- the IndexError disjunct is realised (so `matchOf_total` cannot be sharpened to the IoStmt form) -/
+/-- the IndexError disjunct is realised (only by the empty string), and the two repaired classes no longer raise -/
 def echoKinds : Kinds Str := { isInst := fun _ _ => false, pOK := fun _ => false }
 
 theorem matchOf_indexError_witness :
-    matchOf echoKinds echoOracle R.Cray_Pointer_Decl "(a,)".toList = some (.raises .indexError) ∧
-    matchOf echoKinds echoOracle C.Data_Edit_Desc [] = some (.raises .indexError) ∧
-    matchOf echoKinds echoOracle R.Data_Edit_Desc_C1002 "E".toList = some (.raises .indexError) := by
-  refine ⟨?_, ?_, ?_⟩ <;> decide +kernel
+    matchOf echoKinds echoOracle C.Data_Edit_Desc [] = some (.raises .indexError) := by decide +kernel
 
-/-- for every other class the IoStmt form holds -/
+theorem matchOf_repaired_regression :
+    matchOf echoKinds echoOracle R.Cray_Pointer_Decl "(a,)".toList = some .noMatch ∧
+    matchOf echoKinds echoOracle R.Data_Edit_Desc_C1002 "E".toList = some .noMatch := by
+  refine ⟨?_, ?_⟩ <;> decide +kernel
+
+/-- for every other class (and for Data_Edit_Desc on a non-empty text) the IoStmt form holds -/
 theorem matchOf_total_other (k : Kinds Node) (o : Oracle Node) (c : ClassId) (s : Str) (e : Exc)
-    (hc : c ≠ R.Cray_Pointer_Decl ∧ c ≠ C.Data_Edit_Desc ∧ c ≠ R.Data_Edit_Desc_C1002)
+    (hc : c ≠ C.Data_Edit_Desc ∨ s ≠ [])
     (h : matchOf k o c s = some (.raises e)) : e = .keyError ∨ ∃ c' t, o.call c' t = .raises e := by
-  rcases matchOf_total k o c s e h with h1 | h1 | ⟨_, h1 | h1 | h1⟩
+  rcases matchOf_total k o c s e h with h1 | h1 | ⟨he, h1⟩
   · exact .inl h1
   · exact .inr h1
-  · exact absurd h1 hc.1
-  · exact absurd h1 hc.2.1
-  · exact absurd h1 hc.2.2
+  · rcases hc with hc | hs
+    · exact absurd h1 hc
+    · subst h1
+      have hp : planOf C.Data_Edit_Desc = some planDataEditDesc := rfl
+      unfold matchOf at h
+      rw [hp] at h
+      have h2 := Res.map_eq_raises (Res.map_eq_raises (Option.some.inj h))
+      rcases dataEditDesc_match_total o s e h2 with h3 | ⟨_, h3⟩
+      · exact .inr h3
+      · exact absurd h3 hs
 
 #print axioms planPos_total
 #print axioms planReturn_total
@@ -908,19 +703,11 @@ theorem matchOf_total_other (k : Kinds Node) (o : Oracle Node) (c : ClassId) (s 
 #print axioms planHollerith_not_raises
 #print axioms planHollerith_total
 #print axioms plan_match_totalK
-#print axioms planCrayPointerDecl_indexError_iff
-#print axioms planCrayPointerDecl_raises
-#print axioms planCrayPointerDecl_partial
-#print axioms planCrayPointerDecl_indexError_witness
 #print axioms crayPointerDecl_match_total
-#print axioms crayPointerDecl_match_total_partial
 #print axioms planDataEditDesc_raises_iff
 #print axioms planDataEditDesc_partial
 #print axioms planDataEditDesc_indexError_witness
 #print axioms dataEditDesc_match_total
-#print axioms planDataEditDescC1002_raises_iff
-#print axioms planDataEditDescC1002_partial
-#print axioms planDataEditDescC1002_indexError_witness
 #print axioms dataEditDescC1002_match_total
 #print axioms matchPositionSpec_total
 #print axioms matchWaitSpec_total
@@ -935,3 +722,8 @@ theorem matchOf_total_other (k : Kinds Node) (o : Oracle Node) (c : ClassId) (s 
 #print axioms matchOf_total_other
 
 end Fp.Rest
+#print axioms Fp.Rest.planCrayPointerDecl_total
+#print axioms Fp.Rest.planCrayPointerDecl_empty_pointee_regression
+#print axioms Fp.Rest.planDataEditDescC1002_total
+#print axioms Fp.Rest.planDataEditDescC1002_bare_letter_regression
+#print axioms Fp.Rest.matchOf_repaired_regression
